@@ -11,7 +11,9 @@ EXTENDS Naturals, Integers, Sequences, FiniteSets, TLC
 CONSTANTS Cap,        \* capacity, power of two
           Procs,      \* client processes
           Prog,       \* Prog[p] = sequence of "enq" / "deq"
-          Textbook    \* TRUE: fail at once when dif < 0 (Vyukov's original); the library re-checks the position counters
+          Textbook,   \* TRUE: fail at once when dif < 0 (Vyukov's original); the library re-checks the position counters
+          MaskedFull, \* TRUE: seeded change C07: the "full" test compares the positions modulo the capacity
+          StaleCell   \* TRUE: seeded change C24: dequeue keeps the cell of the old position after a failed CAS of the position
 Mask == Cap - 1
 (* --algorithm Vyukov {
 variables
@@ -23,7 +25,7 @@ variables
   ok = TRUE;                              \* ghost: no linearization-point check has failed
 
 process (P \in Procs)
-  variables pc_i = 1, pos = 0, s = 0, myval = 0, res = 0;
+  variables pc_i = 1, pos = 0, s = 0, myval = 0, res = 0, ci = 0;
 {
 L0: while (pc_i <= Len(Prog[self])) {
       if (Prog[self][pc_i] = "enq") {
@@ -41,7 +43,7 @@ E4:       ok := ok /\ data[pos % Cap] = 0;                          \* the cell 
 E5:       seq[pos % Cap] := pos + 1;                                \* cell->sequence.store( pos + 1 )
           res := 1;
         } else if (s < pos) {
-E6:       if (Textbook \/ pos - posDeq = Cap) {                                 \* m_posDequeue.load: queue full
+E6:       if (Textbook \/ (~MaskedFull /\ pos - posDeq = Cap) \/ (MaskedFull /\ (pos - posDeq) % Cap = 0)) {      \* m_posDequeue.load: queue full
             ok := ok /\ Len(absq) = Cap;
             res := 0;
           } else {
@@ -51,25 +53,25 @@ E7:         pos := posEnq; goto E2;                                 \* bkoff(); 
 E8:       pos := posEnq; goto E2;
         };
       } else {
-D1:     pos := posDeq;
-D2:     s := seq[pos % Cap];
+D1:     pos := posDeq; ci := posDeq % Cap;
+D2:     s := seq[ci];
         if (s = pos + 1) {
 D3:       if (posDeq = pos) {
             posDeq := pos + 1;
-            ok := ok /\ absq # <<>> /\ Head(absq) = data[pos % Cap];
-            absq := Tail(absq);
-          } else { pos := posDeq; goto D2; };
-D4:       res := data[pos % Cap]; data[pos % Cap] := 0;             \* f( cell->data ); value_cleaner
-D5:       seq[pos % Cap] := pos + Mask + 1;
+            ok := ok /\ absq # <<>> /\ Head(absq) = data[ci];
+            absq := IF absq = <<>> THEN absq ELSE Tail(absq);
+          } else { pos := posDeq; if (~StaleCell) { ci := posDeq % Cap; }; goto D2; };      \* the failed CAS rewrites pos
+D4:       res := data[ci]; data[ci] := 0;                           \* f( cell->data ); value_cleaner
+D5:       seq[ci] := pos + Mask + 1;
         } else if (s < pos + 1) {
 D6:       if (Textbook \/ pos - posEnq = 0) {                                   \* queue empty
             ok := ok /\ absq = <<>>;
             res := 0;
           } else {
-D7:         pos := posDeq; goto D2;
+D7:         pos := posDeq; ci := posDeq % Cap; goto D2;
           };
         } else {
-D8:       pos := posDeq; goto D2;
+D8:       pos := posDeq; ci := posDeq % Cap; goto D2;
         };
       };
 L1:   pc_i := pc_i + 1;
@@ -78,10 +80,10 @@ L1:   pc_i := pc_i + 1;
 } *)
 \* BEGIN TRANSLATION
 VARIABLES pc, seq, data, posEnq, posDeq, absq, nextVal, ok, pc_i, pos, s, 
-          myval, res
+          myval, res, ci
 
 vars == << pc, seq, data, posEnq, posDeq, absq, nextVal, ok, pc_i, pos, s, 
-           myval, res >>
+           myval, res, ci >>
 
 ProcSet == (Procs)
 
@@ -99,6 +101,7 @@ Init == (* Global variables *)
         /\ s = [self \in Procs |-> 0]
         /\ myval = [self \in Procs |-> 0]
         /\ res = [self \in Procs |-> 0]
+        /\ ci = [self \in Procs |-> 0]
         /\ pc = [self \in ProcSet |-> "L0"]
 
 L0(self) == /\ pc[self] = "L0"
@@ -112,19 +115,19 @@ L0(self) == /\ pc[self] = "L0"
                   ELSE /\ pc' = [pc EXCEPT ![self] = "Done"]
                        /\ UNCHANGED << nextVal, myval >>
             /\ UNCHANGED << seq, data, posEnq, posDeq, absq, ok, pc_i, pos, s, 
-                            res >>
+                            res, ci >>
 
 L1(self) == /\ pc[self] = "L1"
             /\ pc_i' = [pc_i EXCEPT ![self] = pc_i[self] + 1]
             /\ pc' = [pc EXCEPT ![self] = "L0"]
             /\ UNCHANGED << seq, data, posEnq, posDeq, absq, nextVal, ok, pos, 
-                            s, myval, res >>
+                            s, myval, res, ci >>
 
 E1(self) == /\ pc[self] = "E1"
             /\ pos' = [pos EXCEPT ![self] = posEnq]
             /\ pc' = [pc EXCEPT ![self] = "E2"]
             /\ UNCHANGED << seq, data, posEnq, posDeq, absq, nextVal, ok, pc_i, 
-                            s, myval, res >>
+                            s, myval, res, ci >>
 
 E2(self) == /\ pc[self] = "E2"
             /\ s' = [s EXCEPT ![self] = seq[pos[self] % Cap]]
@@ -134,7 +137,7 @@ E2(self) == /\ pc[self] = "E2"
                              THEN /\ pc' = [pc EXCEPT ![self] = "E6"]
                              ELSE /\ pc' = [pc EXCEPT ![self] = "E8"]
             /\ UNCHANGED << seq, data, posEnq, posDeq, absq, nextVal, ok, pc_i, 
-                            pos, myval, res >>
+                            pos, myval, res, ci >>
 
 E3(self) == /\ pc[self] = "E3"
             /\ IF posEnq = pos[self]
@@ -146,84 +149,90 @@ E3(self) == /\ pc[self] = "E3"
                   ELSE /\ pos' = [pos EXCEPT ![self] = posEnq]
                        /\ pc' = [pc EXCEPT ![self] = "E2"]
                        /\ UNCHANGED << posEnq, absq, ok >>
-            /\ UNCHANGED << seq, data, posDeq, nextVal, pc_i, s, myval, res >>
+            /\ UNCHANGED << seq, data, posDeq, nextVal, pc_i, s, myval, res, 
+                            ci >>
 
 E4(self) == /\ pc[self] = "E4"
             /\ ok' = (ok /\ data[pos[self] % Cap] = 0)
             /\ data' = [data EXCEPT ![pos[self] % Cap] = myval[self]]
             /\ pc' = [pc EXCEPT ![self] = "E5"]
             /\ UNCHANGED << seq, posEnq, posDeq, absq, nextVal, pc_i, pos, s, 
-                            myval, res >>
+                            myval, res, ci >>
 
 E5(self) == /\ pc[self] = "E5"
             /\ seq' = [seq EXCEPT ![pos[self] % Cap] = pos[self] + 1]
             /\ res' = [res EXCEPT ![self] = 1]
             /\ pc' = [pc EXCEPT ![self] = "L1"]
             /\ UNCHANGED << data, posEnq, posDeq, absq, nextVal, ok, pc_i, pos, 
-                            s, myval >>
+                            s, myval, ci >>
 
 E6(self) == /\ pc[self] = "E6"
-            /\ IF Textbook \/ pos[self] - posDeq = Cap
+            /\ IF Textbook \/ (~MaskedFull /\ pos[self] - posDeq = Cap) \/ (MaskedFull /\ (pos[self] - posDeq) % Cap = 0)
                   THEN /\ ok' = (ok /\ Len(absq) = Cap)
                        /\ res' = [res EXCEPT ![self] = 0]
                        /\ pc' = [pc EXCEPT ![self] = "L1"]
                   ELSE /\ pc' = [pc EXCEPT ![self] = "E7"]
                        /\ UNCHANGED << ok, res >>
             /\ UNCHANGED << seq, data, posEnq, posDeq, absq, nextVal, pc_i, 
-                            pos, s, myval >>
+                            pos, s, myval, ci >>
 
 E7(self) == /\ pc[self] = "E7"
             /\ pos' = [pos EXCEPT ![self] = posEnq]
             /\ pc' = [pc EXCEPT ![self] = "E2"]
             /\ UNCHANGED << seq, data, posEnq, posDeq, absq, nextVal, ok, pc_i, 
-                            s, myval, res >>
+                            s, myval, res, ci >>
 
 E8(self) == /\ pc[self] = "E8"
             /\ pos' = [pos EXCEPT ![self] = posEnq]
             /\ pc' = [pc EXCEPT ![self] = "E2"]
             /\ UNCHANGED << seq, data, posEnq, posDeq, absq, nextVal, ok, pc_i, 
-                            s, myval, res >>
+                            s, myval, res, ci >>
 
 D1(self) == /\ pc[self] = "D1"
             /\ pos' = [pos EXCEPT ![self] = posDeq]
+            /\ ci' = [ci EXCEPT ![self] = posDeq % Cap]
             /\ pc' = [pc EXCEPT ![self] = "D2"]
             /\ UNCHANGED << seq, data, posEnq, posDeq, absq, nextVal, ok, pc_i, 
                             s, myval, res >>
 
 D2(self) == /\ pc[self] = "D2"
-            /\ s' = [s EXCEPT ![self] = seq[pos[self] % Cap]]
+            /\ s' = [s EXCEPT ![self] = seq[ci[self]]]
             /\ IF s'[self] = pos[self] + 1
                   THEN /\ pc' = [pc EXCEPT ![self] = "D3"]
                   ELSE /\ IF s'[self] < pos[self] + 1
                              THEN /\ pc' = [pc EXCEPT ![self] = "D6"]
                              ELSE /\ pc' = [pc EXCEPT ![self] = "D8"]
             /\ UNCHANGED << seq, data, posEnq, posDeq, absq, nextVal, ok, pc_i, 
-                            pos, myval, res >>
+                            pos, myval, res, ci >>
 
 D3(self) == /\ pc[self] = "D3"
             /\ IF posDeq = pos[self]
                   THEN /\ posDeq' = pos[self] + 1
-                       /\ ok' = (ok /\ absq # <<>> /\ Head(absq) = data[pos[self] % Cap])
-                       /\ absq' = Tail(absq)
+                       /\ ok' = (ok /\ absq # <<>> /\ Head(absq) = data[ci[self]])
+                       /\ absq' = (IF absq = <<>> THEN absq ELSE Tail(absq))
                        /\ pc' = [pc EXCEPT ![self] = "D4"]
-                       /\ pos' = pos
+                       /\ UNCHANGED << pos, ci >>
                   ELSE /\ pos' = [pos EXCEPT ![self] = posDeq]
+                       /\ IF ~StaleCell
+                             THEN /\ ci' = [ci EXCEPT ![self] = posDeq % Cap]
+                             ELSE /\ TRUE
+                                  /\ ci' = ci
                        /\ pc' = [pc EXCEPT ![self] = "D2"]
                        /\ UNCHANGED << posDeq, absq, ok >>
             /\ UNCHANGED << seq, data, posEnq, nextVal, pc_i, s, myval, res >>
 
 D4(self) == /\ pc[self] = "D4"
-            /\ res' = [res EXCEPT ![self] = data[pos[self] % Cap]]
-            /\ data' = [data EXCEPT ![pos[self] % Cap] = 0]
+            /\ res' = [res EXCEPT ![self] = data[ci[self]]]
+            /\ data' = [data EXCEPT ![ci[self]] = 0]
             /\ pc' = [pc EXCEPT ![self] = "D5"]
             /\ UNCHANGED << seq, posEnq, posDeq, absq, nextVal, ok, pc_i, pos, 
-                            s, myval >>
+                            s, myval, ci >>
 
 D5(self) == /\ pc[self] = "D5"
-            /\ seq' = [seq EXCEPT ![pos[self] % Cap] = pos[self] + Mask + 1]
+            /\ seq' = [seq EXCEPT ![ci[self]] = pos[self] + Mask + 1]
             /\ pc' = [pc EXCEPT ![self] = "L1"]
             /\ UNCHANGED << data, posEnq, posDeq, absq, nextVal, ok, pc_i, pos, 
-                            s, myval, res >>
+                            s, myval, res, ci >>
 
 D6(self) == /\ pc[self] = "D6"
             /\ IF Textbook \/ pos[self] - posEnq = 0
@@ -233,16 +242,18 @@ D6(self) == /\ pc[self] = "D6"
                   ELSE /\ pc' = [pc EXCEPT ![self] = "D7"]
                        /\ UNCHANGED << ok, res >>
             /\ UNCHANGED << seq, data, posEnq, posDeq, absq, nextVal, pc_i, 
-                            pos, s, myval >>
+                            pos, s, myval, ci >>
 
 D7(self) == /\ pc[self] = "D7"
             /\ pos' = [pos EXCEPT ![self] = posDeq]
+            /\ ci' = [ci EXCEPT ![self] = posDeq % Cap]
             /\ pc' = [pc EXCEPT ![self] = "D2"]
             /\ UNCHANGED << seq, data, posEnq, posDeq, absq, nextVal, ok, pc_i, 
                             s, myval, res >>
 
 D8(self) == /\ pc[self] = "D8"
             /\ pos' = [pos EXCEPT ![self] = posDeq]
+            /\ ci' = [ci EXCEPT ![self] = posDeq % Cap]
             /\ pc' = [pc EXCEPT ![self] = "D2"]
             /\ UNCHANGED << seq, data, posEnq, posDeq, absq, nextVal, ok, pc_i, 
                             s, myval, res >>
